@@ -184,7 +184,7 @@ CHECKS['C01'] = dict(
     level='exploration',
     rule='generated (key, 8 inputs) x both versions; for each: 12 VM classes {interpreter, JIT, JIT+SECURE} x {soft, hard AES} x {light, fast}, fast VMs over two complete datasets (interpreted and compiled '
          'initialiser, each filled by 16 threads over a generated partition incl. ranges of 1-3 items and the last item, from caches of rotating Argon2 implementation), light JIT VMs over every '
-         'cache variant {default, JIT} x {ref, SSSE3, AVX2}; single-call API and first/next/last API alternate per configuration. Oracle: every digest equals the digest of the light interpreter '
+         'cache variant {default, JIT} x {ref, SSSE3, AVX2}; single-call API and first/next/last API alternate per configuration. Sweep: 256 further seed-derived inputs x both versions per configuration through six classes (light interpreter = reference, light JIT, light secure JIT hard-AES, fast interpreter, fast JIT hard-AES, fast secure JIT) on 8 threads with their own VMs. Oracle: every digest equals the digest of the light interpreter '
          'with software AES over the default/reference cache (n-version equality). Non-trivial: distinct (configuration != reference, key, input, version)',
     assumptions=COMMON_ASSUME + ['LARGE_PAGES is outside the property quantifier (covered under C15)', 'a defect common to all configurations is invisible to this differential (C02 covers it)'],
     stages=[
